@@ -32,11 +32,15 @@ LEVEL_TEXT = ("Every basic_publish/basic_ack the real engine issues is checked a
 LEVEL_NOTE = "history is recorded at the pika API boundary of the simulated broker; timers are attributed to executions through the step that armed them"
 DESIGN_REF = "DESIGN.md section 6, C03"
 
-RULES = ("A1-", "A2-", "A3-", "A4-")
+RULES = ("A1-", "A2-", "A3-", "A4-", "A5-")
 
 
 def classify(run, v):
     m = C.classify_ack_violation(run, v)
+    if m is None and v["rule"].startswith("A5-") and v.get("inner_end_join"):
+        # the listed protocol defect, nested form: an inner join with End:true acknowledges its held branch events when IT completes, although its
+        # result then only lives in the enclosing join's memory
+        m = "termination-acks-held-events-before-consequence"
     return m
 
 
